@@ -1445,3 +1445,20 @@ B('c17-unnamed-class-level', 'C17', 'R17.b', VMIO,
   VMIO, "        self._reg = reg\n        self._unnamed = []\n", "        self._reg = reg\n")
 N('c19-unnamed-class-default-rebound', 'C19', VMIO,
   "class VmIo:\n    def __init__(self, call_stack, reg):", "class VmIo:\n    _unnamed = []\n\n    def __init__(self, call_stack, reg):")
+B('c07-hue-zero-window-one-sided', 'C07', 'R07.c', UNITS,
+  "    if (-_EPSILON < logical_value < _EPSILON or", "    if (logical_value < _EPSILON or")
+B('c07-hue-zero-window-wide', 'C07', 'R07.c', UNITS,
+  "    if (-_EPSILON < logical_value < _EPSILON or", "    if (-1 < logical_value < 1 or")
+B('c07-saturation-clamp-discontinuous', 'C07', 'R07.c', UNITS,
+  "    s = 100.0 if raw_value >= 65535.0 else", "    s = 100.0 if raw_value >= 65000.0 else")
+N('c07-hue-branches-swapped', 'C07', UNITS,
+  """    if (-_EPSILON < logical_value < _EPSILON or
+            360 - _EPSILON < logical_value < 360 + _EPSILON):
+        h = 0.0
+    else:
+        h = (logical_value % 360.0) / 360.0 * 65535.0""",
+  """    if not (-_EPSILON < logical_value < _EPSILON or
+            360 - _EPSILON < logical_value < 360 + _EPSILON):
+        h = (logical_value % 360.0) / 360.0 * 65535.0
+    else:
+        h = 0.0""")
